@@ -1,6 +1,7 @@
 package byzsim
 
 import (
+	"io"
 	"bytes"
 	"encoding/json"
 	"fmt"
@@ -135,7 +136,7 @@ func contains(s []int, v int) bool {
 	return false
 }
 
-var sigModes = []string{"right-key", "removed-key", "future-key", "stranger-key", "unsigned", "altered", "gitbug-signed"}
+var sigModes = []string{"right-key", "removed-key", "future-key", "stranger-key", "unsigned", "altered", "gitbug-signed", "smuggled-tree-header"}
 
 func (e *Engine) genSigCases(p *sim.Plan, r *sim.Rand) {
 	evs := genKeyHistory(sim.NewRand(sim.Mix(p.RunSeed, 8)))
@@ -326,7 +327,7 @@ func (e *Engine) sigCase(p *sim.Plan, st *sim.Step, res *sim.RunResult, keep boo
 	// pick the signing key for the mode
 	pick := -1
 	switch st.K {
-	case "right-key", "altered", "gitbug-signed":
+	case "right-key", "altered", "gitbug-signed", "smuggled-tree-header":
 		if len(force) == 0 {
 			return nil, "skipped" // no key in force: nothing to sign with "rightly"
 		}
@@ -503,6 +504,37 @@ func (e *Engine) sigCase(p *sim.Plan, st *sim.Step, res *sim.RunResult, keep boo
 				return nil, "skipped"
 			}
 			commit, err = storeRawCommit(cw, tree, nil, sc.PGPSignature)
+		case "smuggled-tree-header":
+			// a genuine signature over another tree; the raw commit gets a second "tree" header AFTER
+			// the signature block (git and go-git let the last one win), pointing at the forged tree
+			other := &node{Spec: model.PackSpec{Author: authorId, Version: 4, Edit: T, Create: 3, Ops: []json.RawMessage{g.createOp()}}}
+			otree, _ := model.StoreEntries(cw.adv, other.entries())
+			signed, e2 := cw.adv.StoreSignedCommit(otree, keys[pick].entity())
+			if e2 != nil {
+				res.HarnessErr = e2.Error()
+				return nil, "skipped"
+			}
+			st1 := cw.w.Hubs[1].Repo.Storer
+			eo, e3 := st1.EncodedObject(plumbing.CommitObject, plumbing.NewHash(string(signed)))
+			if e3 != nil {
+				res.HarnessErr = e3.Error()
+				return nil, "skipped"
+			}
+			rd, _ := eo.Reader()
+			rawCommit, _ := io.ReadAll(rd)
+			_ = rd.Close()
+			forged := strings.Replace(string(rawCommit), "\n\n", "\ntree "+string(tree)+"\n\n", 1)
+			no := st1.NewEncodedObject()
+			no.SetType(plumbing.CommitObject)
+			wr, _ := no.Writer()
+			_, _ = wr.Write([]byte(forged))
+			_ = wr.Close()
+			fh, e4 := st1.SetEncodedObject(no)
+			if e4 != nil {
+				res.HarnessErr = e4.Error()
+				return nil, "skipped"
+			}
+			commit = repository.Hash(fh.String())
 		default:
 			commit, err = cw.adv.StoreSignedCommit(tree, keys[pick].entity())
 		}
